@@ -20,7 +20,8 @@ type serveRule struct{ c *Ctx }
 // +cancel: the current function saw version == CancelRequest; +mcancel: a callee did and returned
 // (cleared again by an edge asserting version != CancelRequest).
 func splitCancel(q string) (ph, flag string) {
-	for _, f := range []string{"+cancel", "+mcancel"} {
+	// +nc (phase pre only): the version last read was tested and is not a CancelRequest
+	for _, f := range []string{"+cancel", "+mcancel", "+nc"} {
 		if strings.HasSuffix(q, f) {
 			return strings.TrimSuffix(q, f), f
 		}
@@ -30,7 +31,7 @@ func splitCancel(q string) (ph, flag string) {
 
 func (r serveRule) step(tc *traceClient, x *core.TSCtx, site ssa.Instruction, q, ev string) string {
 	ph, suffix := splitCancel(q)
-	cancel := suffix != ""
+	cancel := suffix == "+cancel" || suffix == "+mcancel"
 	bad := func(rule, construct, why string) string {
 		tc.fail(rule, x, site, "serve:"+construct, "start-up negotiation: [SSL byte] authentication, ParameterStatus*, session middleware, exactly one ReadyForQuery, then the command loop", why)
 		return q
@@ -62,12 +63,17 @@ func (r serveRule) step(tc *traceClient, x *core.TSCtx, site ssa.Instruction, q,
 	if ph == "failedZ" {
 		return bad("C12.R1", "after-failure:"+ev, "event "+ev+" after the authentication / session step failed: the connection must end")
 	}
+	if ph == "pre" && strings.HasPrefix(ev, "M:") && suffix != "+nc" {
+		// nothing has established that this packet is not a CancelRequest (the version read last - after an SSL
+		// reply a new one is read - was not compared with it): a cancel packet must not be answered
+		return bad("C12.R5", "reply-before-cancel-test:"+ev, "message "+ev+" can be sent although the version read last has not been tested against CancelRequest on this path: a cancel packet (before or after the SSL negotiation) would receive a protocol reply")
+	}
 	switch {
 	case strings.HasPrefix(ev, "RAW:"):
 		if ph != "pre" {
 			return bad("C12.R1", ev+"@"+ph, "an SSL reply byte after the authentication step")
 		}
-		return q
+		return "pre" // the SSL answer is followed by a new start-up packet: what was known about the version is stale
 	case ev == "M:R0" || ev == "CB:auth":
 		if ph != "pre" {
 			return bad("C12.R1", ev+"@"+ph, "a second authentication step")
@@ -133,7 +139,10 @@ func (r serveRule) edge(tc *traceClient, x *core.TSCtx, from, to *ssa.BasicBlock
 	if from.Succs[eqIdx] == to {
 		return ph + "+cancel"
 	}
-	return ph // version != CancelRequest on this path
+	if ph == "pre" {
+		return ph + "+nc" // version != CancelRequest on this path
+	}
+	return ph
 }
 
 func runC12(c *Ctx) {
